@@ -354,7 +354,8 @@ def bycell_case(draw):
     nd = len(g["n"])
     kind = draw(st.sampled_from(["commensurate", "commensurate", "fractional", "too-large", "nonpositive",
                                  "wrong-length"]))
-    if kind in ("commensurate", "fractional") and draw(st.integers(0, 2)) == 0:
+    big_ax = None
+    if kind in ("commensurate", "fractional") and draw(st.integers(0, 1)) == 0:
         # many cells along one axis (mesh construction does not iterate over cells)
         ax = draw(st.integers(0, nd - 1))
         big = draw(st.one_of(st.integers(40, 6000), st.integers(6000, 3_000_000)))
@@ -369,12 +370,14 @@ def bycell_case(draw):
         else:
             g["p2"][ax] = new_hi
         g["n"][ax] = big
+        big_ax = ax
     c = {"g": g, "kind": kind}
     if kind == "fractional":
-        c["axis"] = draw(st.integers(0, nd - 1))
+        # the many-cell axis itself, mostly: a cell size that misses commensurability by a relative 1e-5 ... 1e-7 there
+        c["axis"] = big_ax if big_ax is not None and draw(st.integers(0, 3)) else draw(st.integers(0, nd - 1))
         c["frac"] = draw(st.integers(1, 19)) / 20  # fractional part of the cell count
         # integer part of the cell count: small, or close to the axis' own count (many cells + remainder)
-        c["m"] = draw(st.one_of(st.integers(1, 4), st.just(max(1, g["n"][c["axis"]] - 1))))
+        c["m"] = draw(st.one_of(st.integers(1, 4), st.just(max(1, g["n"][c["axis"]] - 1)), st.just(max(1, g["n"][c["axis"]] - 1))))
     elif kind == "too-large":
         c["axis"] = draw(st.integers(0, nd - 1))
         c["factor"] = draw(st.sampled_from([1.05, 1.5, 2.0, 10.0]))
